@@ -52,7 +52,7 @@ const REG: u8 = 6;
 pub async fn registry_client(c: u8) {
     use futures::FutureExt as _;
     let mut held: Option<Addr<Probe<0>>> = None;
-    let ops = [c08::ROp::TryFromRegistry, c08::ROp::AlreadyRunning, c08::ROp::FromRegistry, c08::ROp::TryFromRegistry];
+    let ops = [c08::ROp::TryFromRegistry, c08::ROp::AlreadyRunning, c08::ROp::FromRegistry, c08::ROp::TryFromRegistry, c08::ROp::AlreadyRunning, c08::ROp::FromRegistry];
     world::log(Ev::Begin { c, i: 0 });
     world::sleep(8).await;
     world::log(Ev::End { c, i: 0, r: Res::Ok });
